@@ -4498,6 +4498,11 @@ class Parameters:
             kwargs = dict(zip(spec.args[-len(spec.defaults):], spec.defaults))
         else:
             posargs, kwargs = args, []
+        if spec.kwonlyargs:
+            # keyword-only arguments of the constructor that are Parameters
+            # are keyword arguments like the others (with their own defaults)
+            args = args + [k for k in spec.kwonlyargs if k in values]
+            kwargs = dict(kwargs, **{k: v for k, v in (spec.kwonlydefaults or {}).items() if k in values})
 
         parameters = self.param.objects('existing')
         ordering = sorted(
@@ -4537,7 +4542,7 @@ class Parameters:
             if k in posargs:
                 # value will be unknown_value unless k is a parameter
                 arglist.append(value)
-            elif (k in kwargs or
+            elif (k in kwargs or k in spec.kwonlyargs or
                   (hasattr(spec, 'varkw') and (spec.varkw is not None)) or
                   (hasattr(spec, 'keywords') and (spec.keywords is not None))):
                 # Explicit modified keywords or parameters in
